@@ -39,6 +39,25 @@ class FnContract:
         self.decreases = None
 
 
+HINT_LABEL = re.compile(r"^#([A-Za-z0-9_.\-]+):\s*(.*)$")
+
+
+def hint_asserts(c):
+    """labels of the *named* assertions inside a contract's proof hints (`#label: assert(..);` on its own line).
+    They state intermediate facts of the property itself (e.g. 'the bytes written so far are the first k properties'),
+    so a failure is reported as a failed named obligation, unlike an anonymous proof hint."""
+    out = []
+    groups = [c.entry] + [ins[3] for ins in c.inserts]
+    for l in c.loops.values():
+        groups += [l["top"], l["bottom"]]
+    for g in groups:
+        for ln in g:
+            m = HINT_LABEL.match(ln.strip())
+            if m:
+                out.append(m.group(1))
+    return out
+
+
 def parse_clauses(lines, where):
     """lines of a clause block: `#label: text` starts a clause; following lines continue it."""
     out = []
@@ -815,9 +834,16 @@ def splice_body(em, body, c, fnid):
         em.add("    broadcast use crate::base::group_ext;")
     if c.opts.get("prefix"):
         em.add("    broadcast use crate::base::group_prefix;")
+    def add_hint(indent, ln):
+        m = HINT_LABEL.match(ln.strip())
+        if m:
+            em.add(indent + m.group(2), origin="%s:assert#%s" % (fnid, m.group(1)))
+        else:
+            em.add(indent + ln.strip(), origin="%s:hint" % fnid)
+
     if c.entry:
         for ln in c.entry:
-            em.add("    " + ln.strip(), origin="%s:hint" % fnid)
+            add_hint("    ", ln)
     for pos in cuts:
         emit_chunk(body[prev:pos])
         prev = pos
@@ -825,7 +851,7 @@ def splice_body(em, body, c, fnid):
             if blk[0] == "raw":
                 for ln in blk[1]:
                     if ln.strip():
-                        em.add("    " * depth + ln.strip(), origin="%s:hint" % fnid)
+                        add_hint("    " * depth, ln)
             else:
                 _, n, spec = blk
                 kw = "invariant_except_break" if spec["except_break"] else "invariant"
